@@ -1,3 +1,4 @@
 import CohdlVerif.Model.DriverLoop
--- model driver of property C08 (stub: no model entry points yet)
-def main : IO Unit := CohdlVerif.driverLoop (fun _ => "bad-op")
+import CohdlVerif.Model.C08
+-- model driver of property C08:  `check <tcode-sexp>` -> `<acc|rej> <ok|bad> <faulting path|->`
+def main : IO Unit := CohdlVerif.driverLoop CohdlVerif.C08.handle
